@@ -129,6 +129,16 @@ pub(super) struct Local {
     generation: Cell<usize>,
 }
 
+impl Local {
+    /// Will the next transaction wrap the generation counter around?
+    ///
+    /// If so, the caller must move to another node *before* starting it (see the ABA protection
+    /// above), so the whole transaction happens on a node it keeps.
+    pub(super) fn wraps_next(&self) -> bool {
+        self.generation.get().wrapping_add(4) == 0
+    }
+}
+
 // Make sure the pointers have 2 empty bits. Always.
 #[derive(Default)]
 #[repr(align(4))]
@@ -191,13 +201,11 @@ impl Slots {
         &self.slot
     }
 
-    pub(super) fn get_debt(&self, ptr: usize, local: &Local) -> (usize, bool) {
+    pub(super) fn get_debt(&self, ptr: usize, local: &Local) -> usize {
         // Incrementing by 4 ensures we always have enough space for 2 bit of tags.
         let gen = local.generation.get().wrapping_add(4);
         debug_assert_eq!(gen & GEN_TAG, 0);
         local.generation.set(gen);
-        // Signal the caller that the node should be sent to a cooldown.
-        let discard = gen == 0;
         let gen = gen | GEN_TAG;
         // We will sync by the write to the control. But we also sync the value of the previous
         // generation/released slot. That way we may re-confirm in the writer that the reader is
@@ -212,7 +220,7 @@ impl Slots {
         let prev = self.control.swap(gen, SeqCst);
         debug_assert_eq!(IDLE, prev, "Left control in wrong state");
 
-        (gen, discard)
+        gen
     }
 
     pub(super) fn help<R, T>(&self, who: &Self, storage_addr: usize, replacement: &R)
